@@ -17,6 +17,8 @@ import (
 	"time"
 
 	"github.com/markusressel/fan2go/internal/configuration"
+	"github.com/markusressel/fan2go/internal/fans"
+	"github.com/markusressel/fan2go/internal/persistence"
 	"github.com/markusressel/fan2go/internal/verifshim/env"
 	"github.com/markusressel/fan2go/internal/verifshim/mc"
 )
@@ -28,10 +30,31 @@ type vxC16Case struct {
 	Kinds    []int `json:"kinds"`    // per fan: 0 nothing stored, 1 nothing stored + pwmMap configured (no sweep, measurement only), 2 only the RPM curve stored (sweep only), 3 file fan (sweep only)
 	// RespDelay: fanResponseDelay in seconds (-1 = the default 2); 0 makes a whole analysis take ~13 s instead of ~9 min
 	RespDelay int `json:"respDelay"`
+	// CancelAtMs > 0: the controllers' context is cancelled at this time (shutdown request, or another actor of the daemon
+	// gave up) while analyses are in progress / queued; a queued fan must still wait for its turn (or not start at all)
+	CancelAtMs int `json:"cancelAtMs,omitempty"`
+}
+
+// vxPersRec records when a controller stores analysis results (end of sweep / of measurement).
+type vxPersRec struct {
+	persistence.Persistence
+	onSave func()
+}
+
+func (p *vxPersRec) SaveFanPwmData(fan fans.Fan) error {
+	err := p.Persistence.SaveFanPwmData(fan)
+	p.onSave()
+	return err
+}
+
+func (p *vxPersRec) SaveFanPwmMap(fanId string, pwmMap map[int]int) error {
+	err := p.Persistence.SaveFanPwmMap(fanId, pwmMap)
+	p.onSave()
+	return err
 }
 
 func (c vxC16Case) String() string {
-	return fmt.Sprintf("parallel=%v delaysMs=%v settle=%v kinds=%v respDelay=%d", c.Parallel, c.Delays, c.Settle, c.Kinds, c.RespDelay)
+	return fmt.Sprintf("parallel=%v delaysMs=%v settle=%v kinds=%v respDelay=%d cancelAtMs=%d", c.Parallel, c.Delays, c.Settle, c.Kinds, c.RespDelay, c.CancelAtMs)
 }
 
 type vxIv struct {
@@ -56,6 +79,7 @@ func vxC16Exec(t *testing.T, c vxC16Case) (ivs []vxIv, fail [2]string) {
 		worlds := make([]*vxRunWorld, k)
 		firstWrite := make([]time.Duration, k)
 		lastOp := make([]time.Duration, k)
+		lastSave := make([]time.Duration, k)
 		for i := range firstWrite {
 			firstWrite[i] = -1
 		}
@@ -74,6 +98,7 @@ func vxC16Exec(t *testing.T, c vxC16Case) (ivs []vxIv, fail [2]string) {
 			w := vxRunBuild(cfg, fmt.Sprintf("fan%d", i), fs, fmt.Sprintf("hwmon%d", i), db, false)
 			worlds[i] = w
 			i := i
+			w.ctl.persistence = &vxPersRec{Persistence: w.ctl.persistence, onSave: func() { lastSave[i] = time.Since(t0) }}
 			var started time.Time
 			w.dev.RpmOf = func(pwm int) int {
 				base := pwm * 10
@@ -115,6 +140,14 @@ func vxC16Exec(t *testing.T, c vxC16Case) (ivs []vxIv, fail [2]string) {
 		}
 		ctx, cancel := context.WithCancel(context.Background())
 		var wg sync.WaitGroup
+		if c.CancelAtMs > 0 {
+			wg.Add(1)
+			go func() {
+				defer wg.Done()
+				time.Sleep(time.Duration(c.CancelAtMs)*time.Millisecond + 41*time.Microsecond)
+				cancel()
+			}()
+		}
 		finished := make([]chan struct{}, k)
 		for i := range finished {
 			finished[i] = make(chan struct{})
@@ -175,6 +208,17 @@ func vxC16Exec(t *testing.T, c vxC16Case) (ivs []vxIv, fail [2]string) {
 		fs.Intercept = nil
 		for i := 0; i < k; i++ {
 			ivs[i] = vxIv{Fan: i, Start: firstWrite[i], End: lastOp[i], Done: worlds[i].curve.Evals > 0}
+			if c.CancelAtMs > 0 {
+				// a cancelled controller never regulates; its analysis ends with the last result it stored (what it writes
+				// afterwards is the restoration of the fan, which may well happen while the next fan is analysed)
+				ivs[i].Done = true
+				if lastSave[i] > 0 {
+					ivs[i].End = lastSave[i]
+				}
+				if firstWrite[i] >= 0 && ivs[i].End < firstWrite[i] {
+					ivs[i].End = firstWrite[i]
+				}
+			}
 			if errs[i] != "" {
 				fail = [2]string{"C16 controller failed during initialisation", fmt.Sprintf("fan %d: %s", i, errs[i])}
 			}
@@ -227,6 +271,9 @@ func TestVX_C16(t *testing.T) {
 			return
 		}
 		for _, iv := range ivs {
+			if c.CancelAtMs > 0 {
+				continue
+			}
 			if !iv.Done || iv.Start < 0 {
 				rep.Violate(mc.Violation{Signature: "C16 a fan never completed its analysis", Detail: fmt.Sprintf("fan %d: %+v\ncase: %s\nintervals:%s", iv.Fan, iv, c, desc), Replay: c})
 				return
@@ -305,6 +352,18 @@ func TestVX_C16(t *testing.T) {
 	} else {
 		delaySet = []int{0, 3, 1400, -1}
 		gen(3, nil, nil, 2)
+	}
+	// shutdown request while one fan is analysed and others are queued (short analyses: fanResponseDelay 0)
+	for _, kinds := range [][]int{{0, 0}, {0, 2}, {0, 3}, {2, 0}, {0, 0, 0}, {0, 2, 3}} {
+		for _, d := range []int{0, 3, 700} {
+			for _, at := range []int{4000, 8000, 12000, 20000} {
+				delays := []int{d}
+				if len(kinds) == 3 {
+					delays = []int{d, 1}
+				}
+				cases = append(cases, vxC16Case{Parallel: false, Delays: delays, Settle: make([]int, len(kinds)), Kinds: kinds, RespDelay: 0, CancelAtMs: at})
+			}
+		}
 	}
 	// start orders: fans are symmetric except for their settle model, and every assignment of settle models to
 	// start positions is enumerated, so all start orders are covered by construction.
